@@ -56,3 +56,35 @@ JOBS = [
         defines=['CQV_WHICH=%d' % w], props=['C04', 'C19'])
     for w, t in enumerate(['byte', 'u16_le', 'u32_le', 'u64_le', 'f32_le', 'f64_le'])
 ]
+
+# ---- arena.c: block list of length <= 3 (bounded level), sizes / fill levels / alignment symbolic ----
+TRUST_ARENA = ['harness/C19/arena.c: memcpy/memset models (ranges accessible; one arbitrary ghost byte kept, rest havocked)']
+ARENA = dict(overlays=['contracts/arena.ovl'], harness='harness/C19/arena.c', includes=['.'],
+             extra_sources=[], loop_contracts=False, checks=CHECKS, cbmc_flags=FAIL, trusted=TRUST_ARENA,
+             props=['C19', 'C04'], wip=True, unwind=6, level='bounded',
+             bound='arena block list of length 1..3 on entry (all block sizes, fill levels <= 2^40, current block, alignment symbolic)')
+AA = ['carquet_arena_alloc_aligned', 'arena_aligned_offset', 'arena_new_block', 'align_up', 'carquet_arena_destroy']
+
+
+def arena(name, entry, functions, **kw):
+    d = dict(ARENA)
+    d.update(name='c19_arena_' + name, entry=entry, functions=functions)
+    d.update(kw)
+    return d
+
+
+JOBS += [
+    arena('alloc_aligned', 'h_alloc_aligned', AA),
+    arena('alloc_aligned_nofail', 'h_alloc_aligned', AA, cbmc_flags=[], defines=['CQV_NOFAIL=1']),
+    arena('alloc', 'h_alloc', AA + ['carquet_arena_alloc']),
+    arena('calloc', 'h_calloc', AA + ['carquet_arena_calloc', 'carquet_arena_alloc']),
+    arena('calloc_overflow', 'h_calloc_overflow', ['carquet_arena_calloc', 'carquet_arena_destroy']),
+    arena('memdup', 'h_memdup', AA + ['carquet_arena_memdup', 'carquet_arena_alloc']),
+    arena('strndup', 'h_strndup', AA + ['carquet_arena_strndup'], loop_contracts=True, min_loop_obligations=1),
+    arena('strdup', 'h_strdup', AA + ['carquet_arena_strdup', 'carquet_arena_strndup'], loop_contracts=True, min_loop_obligations=1,
+          trusted=TRUST_ARENA + ['harness/C19/arena.c: strlen model (requires a NUL inside the object, returns the index of some NUL not after the promised one)']),
+    arena('init', 'h_init_size', ['carquet_arena_init', 'carquet_arena_init_size', 'arena_new_block', 'align_up', 'carquet_arena_destroy']),
+    arena('destroy', 'h_destroy', ['carquet_arena_destroy']),
+    arena('reset', 'h_reset', ['carquet_arena_reset', 'carquet_arena_destroy']),
+    arena('save_restore', 'h_save_restore', AA + ['carquet_arena_save', 'carquet_arena_restore']),
+]
